@@ -679,6 +679,9 @@ func (r *rw) sel(x *ast.SelectStmt) []ast.Stmt {
 	def := "false"
 	if hasDefault {
 		def = "true"
+	} else {
+		// keeps the rewritten statement terminating when the original select was
+		sw.Body.List = append(sw.Body.List, &ast.CaseClause{List: nil, Body: []ast.Stmt{&ast.ExprStmt{X: call(ast.NewIdent("panic"), &ast.BasicLit{Kind: token.STRING, Value: strconv.Quote("vsync: select returned without a ready case")})}}})
 	}
 	args := append([]ast.Expr{ast.NewIdent(def)}, cases...)
 	sw.Tag = call(vs("Select"), args...)
